@@ -272,3 +272,71 @@ Proof. apply op_multiply_r_eq. Qed.
 Corollary op_multiply_nofast_eq f i m : rinput_ok i = true ->
   op_multiply_nofast f i m = op_multiply f (denote_input i) m.
 Proof. apply op_multiply_r_eq. Qed.
+
+(* ---------------------------------------------------------------- op_add *)
+Lemma add_loop_r_eq ncm pa pb t m : forall l, forallb rarg_ok l = true ->
+  forall cost acc,
+  add_loop_r ncm pa pb l cost acc m = add_loop ncm pa pb (denote_input (l, t)) cost acc m.
+Proof.
+  induction l as [|a l IH]; intros Hok cost acc.
+  - rewrite denote_input_nil. destruct (denote_term_atom t) as [tb ->]. reflexivity.
+  - rewrite forallb_cons in Hok. apply andb_prop in Hok. destruct Hok as [Ha Hl].
+    rewrite denote_input_cons. cbn [add_loop_r add_loop].
+    destruct a as [v|b|pl pr]; cbn [denote_arg rarg_ok] in *.
+    + apply small_lt in Ha. rewrite (blen_small v Ha), int_of_bytes_of_int.
+      destruct (check_cost _ m) as [[]|e]; cbn [bind]; [|reflexivity]. apply IH; exact Hl.
+    + destruct (check_cost _ m) as [[]|e]; cbn [bind]; [|reflexivity]. apply IH; exact Hl.
+    + reflexivity.
+Qed.
+
+Theorem op_add_nofast_eq f i m : rinput_ok i = true ->
+  op_add_nofast f i m = op_add f (denote_input i) m.
+Proof.
+  destruct i as [l t]. intros Hok. apply rinput_ok_args in Hok.
+  unfold op_add_nofast, op_add. cbn [fst].
+  destruct (arith_costs f) as [[base pa] pb].
+  rewrite (add_loop_r_eq _ _ _ t m l Hok).
+  destruct (add_loop _ _ _ _ _ _ _) as [[c tot]|e]; cbn [bind]; [|reflexivity].
+  rewrite number_bytes_spec. reflexivity.
+Qed.
+
+Lemma limbs_u64_eq v : limbs_u64 v = limbs (Z.of_N v).
+Proof.
+  unfold limbs_u64, limbs. replace (Z.abs_N (Z.of_N v)) with v by lia.
+  destruct (N.eqb_spec v 0) as [->|]; reflexivity.
+Qed.
+
+(* the u64 closure agrees with the generic loop whenever it does not ask for the fall-back *)
+Lemma add_fast_sound ncm pa pb m : forall l cost total, total < two64 ->
+  match add_fast_loop ncm pa pb l cost total m with
+  | Ok (Some (c, t')) => add_loop_r ncm pa pb l cost (Z.of_N total) m = Ok (c, Z.of_N t') /\ t' < two64
+  | Ok None => True
+  | Err e => add_loop_r ncm pa pb l cost (Z.of_N total) m = Err e
+  end.
+Proof.
+  induction l as [|a l IH]; intros cost total Ht.
+  - cbn [add_fast_loop add_loop_r]. split; [reflexivity|exact Ht].
+  - cbn [add_fast_loop add_loop_r]. destruct a as [v|b|pl pr]; [|exact I|exact I].
+    rewrite limbs_u64_eq.
+    destruct (check_cost _ m) as [[]|e]; cbn [bind]; [|reflexivity].
+    unfold checked_add. destruct (N.ltb_spec (total + v) two64) as [Hs|Hs]; [|exact I].
+    replace (Z.of_N total + Z.of_N v)%Z with (Z.of_N (total + v)) by lia.
+    apply IH. exact Hs.
+Qed.
+
+Theorem op_add_fast_nofast f i m : op_add_fast f i m = op_add_nofast f i m.
+Proof.
+  unfold op_add_fast. unfold op_add_nofast at 2.
+  destruct (arith_costs f) as [[base pa] pb] eqn:EC.
+  pose proof (add_fast_sound (f_new_cost_model f) pa pb m (fst i) base 0) as S.
+  change (Z.of_N 0) with 0%Z in S.
+  destruct (add_fast_loop _ _ _ _ _ _ _) as [[[c t']|]|e]; cbn [bind].
+  - destruct S as [S Ht]; [reflexivity|]. rewrite S. cbn [bind].
+    rewrite number_bytes_spec, u64_bytes_spec; [reflexivity|exact Ht].
+  - unfold op_add_nofast. rewrite EC. reflexivity.
+  - rewrite S by reflexivity. reflexivity.
+Qed.
+
+Theorem op_add_fast_eq f i m : rinput_ok i = true ->
+  op_add_fast f i m = op_add f (denote_input i) m.
+Proof. intros Hok. rewrite op_add_fast_nofast. apply op_add_nofast_eq. exact Hok. Qed.
